@@ -145,4 +145,78 @@ pub mod sync {
             self.0.into_inner()
         }
     }
+
+    /// `once_cell::sync::OnceCell` with a yield point before every operation that can race
+    /// (the cells of the value chain and the default-impl delegator cell).
+    pub struct OnceCell<T>(once_cell::sync::OnceCell<T>);
+
+    impl<T> Default for OnceCell<T> {
+        fn default() -> Self {
+            Self(once_cell::sync::OnceCell::new())
+        }
+    }
+
+    impl<T> From<T> for OnceCell<T> {
+        fn from(value: T) -> Self {
+            Self(once_cell::sync::OnceCell::from(value))
+        }
+    }
+
+    impl<T> OnceCell<T> {
+        /// see once_cell
+        pub const fn new() -> Self {
+            Self(once_cell::sync::OnceCell::new())
+        }
+
+        /// see once_cell
+        pub fn get(&self) -> Option<&T> {
+            super::yield_point("oncecell.get");
+            self.0.get()
+        }
+
+        /// see once_cell
+        pub fn set(&self, value: T) -> Result<(), T> {
+            super::yield_point("oncecell.set");
+            self.0.set(value)
+        }
+
+        /// see once_cell
+        pub fn try_insert(&self, value: T) -> Result<&T, (&T, T)> {
+            super::yield_point("oncecell.try_insert");
+            self.0.try_insert(value)
+        }
+
+        /// see once_cell
+        pub fn get_or_init<F>(&self, f: F) -> &T
+        where
+            F: FnOnce() -> T,
+        {
+            super::yield_point("oncecell.get_or_init");
+            self.0.get_or_init(f)
+        }
+
+        /// see once_cell
+        pub fn get_or_try_init<F, E>(&self, f: F) -> Result<&T, E>
+        where
+            F: FnOnce() -> Result<T, E>,
+        {
+            super::yield_point("oncecell.get_or_try_init");
+            self.0.get_or_try_init(f)
+        }
+
+        /// see once_cell
+        pub fn get_mut(&mut self) -> Option<&mut T> {
+            self.0.get_mut()
+        }
+
+        /// see once_cell
+        pub fn take(&mut self) -> Option<T> {
+            self.0.take()
+        }
+
+        /// see once_cell
+        pub fn into_inner(self) -> Option<T> {
+            self.0.into_inner()
+        }
+    }
 }
